@@ -211,7 +211,8 @@ def depth2():
         DictOf(Str(), DecimalS()), ListOf(EnumS(M.Color)), Opt(PointS()), ListOf(FixedTuple(Int(), Str())),
         DictOf(Str(), Opt(Str())), VarTuple(NTS_()), ListOf(TDS()), Opt(DateTimeS()), ListOf(UUIDS_()),
         DictOf(EnumS(M.Mood), Int()), FixedTuple(DateS(), TimeDeltaS(), Int()), ListOf(TimeDeltaS()),
-        UnionS(Int(-2, 2), Str()), UnionS(PointS(), Int(-2, 2)), ListOf(UnionS(Int(-2, 2), Str())), DictOf(Str(), UnionS(Int(-2, 2), PointS())),
+        UnionS(Int(-2, 2), Str(picks=["", "a", "1"])), UnionS(PointS(), Int(-2, 2)), ListOf(UnionS(Int(-2, 2), Str(picks=["", "a", "1"]))),
+        DictOf(Str(picks=["a", "b"]), UnionS(Int(-2, 2), PointS())),
     ]
 
 
